@@ -510,6 +510,13 @@ def finish(pid, tier, seed, jobs, classes_info, t_start, deadline, extra_cov=Non
 
 
 def main(argv):
+    if argv and argv[0] == "--selftest":
+        # setup: the tools import, compilers exist, the lattice closes to the expected size
+        n = len(C.all_closed_sets())
+        for cxx in ("g++", "clang++"):
+            subprocess.check_call([cxx, "--version"], stdout=subprocess.DEVNULL)
+        print("selftest ok: %d closed macro sets" % n)
+        return 0
     if len(argv) >= 2 and argv[0] == "--replay":
         return replay_file(argv[1])
     if len(argv) < 2:
